@@ -43,6 +43,46 @@ def same_classes_other_letters(rnd, s):
     return t
 
 
+def class_counts(s):
+    p = sum(1 for c in s if c in POS)
+    m = sum(1 for c in s if c in NEG)
+    return p, m, len(s) - p - m
+
+
+def seq_with_counts(rnd, p, m, z):
+    l = [rnd.choice(POS) for _ in range(p)] + [rnd.choice(NEG) for _ in range(m)] + [rnd.choice(NEUT) for _ in range(z)]
+    rnd.shuffle(l)
+    return "".join(l)
+
+
+def concat_collision(rnd, s, maxlen=60):
+    """a sequence whose (n+, n-, n0) is a different parse of the same digit string, e.g. (11,2,7) vs (1,12,7):
+    relatives of this kind expose cache keys built by gluing the counts together.  None if there is none."""
+    p, m, z = class_counts(s)
+    d = "%d%d%d" % (p, m, z)
+    alts = []
+    for i in range(1, len(d) - 1):
+        for j in range(i + 1, len(d)):
+            parts = (d[:i], d[i:j], d[j:])
+            if any(len(x) > 1 and x[0] == "0" for x in parts):
+                continue
+            t = tuple(int(x) for x in parts)
+            if t != (p, m, z) and 0 < sum(t) <= maxlen:
+                alts.append(t)
+    if not alts:
+        return None
+    return seq_with_counts(rnd, *rnd.choice(alts))
+
+
+def gen_two_digit_counts(rnd):
+    """a sequence with at least ten residues in one charge class (so that glued-count keys can collide)"""
+    big = rnd.randrange(10, 16)
+    a, b = rnd.randrange(1, 4), rnd.randrange(1, 9)
+    t = [big, a, b]
+    rnd.shuffle(t)
+    return seq_with_counts(rnd, *t)
+
+
 def gen_seq(rnd, n, cls=None):
     if cls is None:
         cls = rnd.choice(CLASSES)
